@@ -916,6 +916,8 @@ class World:
                 self._lag((ev[1], ev[2]))
             elif kind == 'land':
                 self._land((ev[1], ev[2]))
+            elif kind in ('udisable', 'uenable'):
+                self._disability(ev[1], ev[2], kind == 'udisable')
             elif kind == 'ustart':
                 self._user_supervisor(ev[1], 'startProcess', ev[2])
             elif kind == 'ustop':
@@ -1120,6 +1122,15 @@ class World:
         if p.state != frm:
             raise ValueError(f'illegal process transition {action} for {namespec} in state {p.state}')
         s.proc_change(p, to, expected)
+
+    def _disability(self, i, namespec, disabled):
+        """supvisors.disable / enable on instance i (what SupervisorData.disable_program does, with the Supervisor event
+        handed to the real listener instead of the process-global notify)."""
+        from supvisors.ttypes import ProcessDisabledEvent, ProcessEnabledEvent
+        s = self.sups[i]
+        p = s.proc(namespec)
+        p.supvisors_config.program_config.disabled = disabled
+        s.listener.on_process_disability((ProcessDisabledEvent if disabled else ProcessEnabledEvent)(p))
 
     def _user_supervisor(self, i, method, namespec):
         """A user talks to supervisord directly, bypassing Supvisors."""
